@@ -16,7 +16,9 @@ UNARY = ["neg", "pos"]
 DEGS = ["degC", "°F", "reaumur", "degRo", "delisle", "degN"]
 CALL1 = ["sqrt", "ln"]
 CALL2 = ["atan2", "log"]
-LEAVES = ["a", "b", "c", "'q'", "2", "1.5", "1e15", '"in"', '"to"', '"per"', "meter", '"number2.5can"']
+LEAVES = ["a", "b", "c", "'q'", "2", "1.5", "1e15", '"in"', '"to"', '"per"', "meter", '"number2.5can"',
+          # quote literals whose contents need the lexer's escapes: apostrophe, line feed, tab
+          "'it\\'s'", "'\\''", "'a\\nb'", "'a\\tb'"]
 KINDS = ([("bin", o) for o in BIN] + [("mul2", None), ("mul3", None)] + [("un", u) for u in UNARY]
          + [("deg", d) for d in DEGS[:2]] + [("of", None)] + [("call1", c) for c in CALL1[:1]]
          + [("call2", c) for c in CALL2[:1]])
